@@ -34,6 +34,13 @@ impl LiquidityMonitor {
                 ));
             }
         }
+        // (a') a position with liquidity covers a non-empty range [lower, upper): with the bounds in the wrong order its two ticks carry
+        //      +L / -L the wrong way round and the first crossing breaks (b)
+        for (lo, hi, liq) in self.ledger.values() {
+            if *liq > 0 && lo >= hi {
+                return Err(format!("a position holds liquidity {liq} over the empty range [{lo}, {hi})"));
+            }
+        }
         // (b) pool.liquidity = sum over covering positions
         let t = post.pool.tick_current_index;
         let mut sum = BigInt::from(0);
